@@ -76,13 +76,11 @@ def le(a, b):
 
 
 def eq(a, b):
-    x, y = sorted([a, b], key=repr)
-    return ("eq", x, y)
+    return sym.eq_atom("eq", a, b)
 
 
 def ne(a, b):
-    x, y = sorted([a, b], key=repr)
-    return ("ne", x, y)
+    return sym.eq_atom("ne", a, b)
 
 
 def holds(t):
